@@ -1,5 +1,6 @@
 import FalconModel.Multipart
 import FalconModel.MultipartFlat
+import FalconModel.MediaType
 open Rd Mp
 
 def hexD (n : Nat) : Char := if n < 10 then Char.ofNat (48+n) else Char.ofNat (87+n)
@@ -90,8 +91,20 @@ def showFlat (x : List (Mf.Headers × Bytes) × Mf.Outcome) : String :=
   let ps := x.1.map fun (h, c) => s!"p {let t := showHeaders h; if t.isEmpty then "-" else t} {hexOr c} "
   String.join ps ++ (match x.2 with | .finished => "end" | .error e => "err " ++ showFlatErr e | .fuel => "fuel")
 
+/-! ### `parse_header` (falcon/util/mediatypes.py, model `Mt.parseHeader`) on the Content-Disposition / Content-Type value of a part:
+  `ph <hex of the ASCII header value>` -> `<hex key> <hexname=hexvalue;... sorted | ->` -/
+def hexChars (s : List Char) : String :=
+  if s.isEmpty then "-" else String.ofList (s.flatMap fun c => [hexD (c.toNat / 16), hexD (c.toNat % 16)])
+
+def showParams (ps : Mt.Params) : String :=
+  if ps.isEmpty then "-" else
+  ";".intercalate ((ps.map fun (k, v) => hexChars k ++ "=" ++ hexChars v).foldr insertSorted [])
+
 def flatStep (ws : List String) : Option String :=
   match ws with
+  | ["ph", line] =>
+    let (k, ps) := Mt.parseHeader ((fromHex line).map fun b => Char.ofNat b.toNat)
+    some (hexChars k ++ " " ++ showParams ps)
   | ["encode", b, pre, epi, fin, parts] =>
     some (hexOr (Mf.encodeForm (parseParts parts) (fromHex b) (fromHex pre) (fromHex epi) (fin == "1")))
   | ["parseflat", body, b, maxhdr, maxcount] =>
